@@ -42,6 +42,7 @@ type vC16Call struct {
 	gd, gr  int32         // GetDocument / getRevision+getCurrentVersion invocations made by this call
 	fail    string        // "ok" | "fd" (GetDocument fails) | "fr" (getRevision / getCurrentVersion fails)
 	gate    chan struct{} // if set: GetDocument blocks here (forced schedules)
+	after   bool          // the gate is after the document snapshot was taken (the document has been READ) instead of before
 	entered chan struct{} // closed when the call is inside GetDocument
 	once    sync.Once
 }
@@ -69,7 +70,7 @@ type vC16Store struct {
 func (s *vC16Store) GetDocument(ctx context.Context, docid string, unmarshalLevel DocumentUnmarshalLevel) (*Document, error) {
 	call := vC16CallOf(ctx)
 	atomic.AddInt32(&call.gd, 1)
-	if call.gate != nil {
+	if call.gate != nil && !call.after {
 		call.once.Do(func() { close(call.entered) })
 		<-call.gate
 	}
@@ -82,12 +83,13 @@ func (s *vC16Store) GetDocument(ctx context.Context, docid string, unmarshalLeve
 	if !ok || variant == vC16Missing {
 		return nil, ErrMissing
 	}
+	// the two variants are the SAME revision (body, rev id, version, attachments) in different channels: changing a document
+	// from one to the other is the metadata-only channel update of the property (StoreUpdate); the sizes differ by the channel names
 	doc := NewDocument(docid)
-	doc._body = Body{"m": variant}
+	doc._body = Body{"m": "v", "variantChannels": true}
 	chans := base.SetOf("A")
 	if variant == "c2" {
-		doc._body["pad"] = "0123456789"
-		chans = base.SetOf("A", "BB")
+		chans = base.SetOf("A", "BBBBBBBBBBBBBBBBBBBBB")
 	}
 	doc.SetRevTreeID(vC16Rev)
 	doc.History = RevTree{vC16Rev: {}}
@@ -95,16 +97,17 @@ func (s *vC16Store) GetDocument(ctx context.Context, docid string, unmarshalLeve
 	if _, err := doc.updateChannels(ctx, chans); err != nil {
 		return nil, err
 	}
+	if call.gate != nil && call.after { // the snapshot is taken; stall before handing it to the cache
+		call.once.Do(func() { close(call.entered) })
+		<-call.gate
+	}
 	return doc, nil
 }
 
 func (s *vC16Store) revBody(doc *Document) ([]byte, AttachmentsMeta, base.Set, error) {
 	ch, _ := doc.channelsForRevTreeID(doc.GetRevTreeID())
 	b, err := base.JSONMarshal(doc._body)
-	var atts AttachmentsMeta
-	if doc._body["m"] == "c2" {
-		atts = AttachmentsMeta{"att1": map[string]any{"digest": "sha1-x", "length": 3, "revpos": 1, "stub": true}}
-	}
+	atts := AttachmentsMeta{"att1": map[string]any{"digest": "sha1-x", "length": 3, "revpos": 1, "stub": true}}
 	return b, atts, ch, err
 }
 
@@ -438,12 +441,20 @@ func (e *vC16Env) exec(s vC16Step, call *vC16Call) vObj {
 		if err != nil {
 			e.t.Fatalf("VERIF-FATAL %s rejected the revision: %v", s.Op, err)
 		}
-	case "Remove":
+	case "Remove", "Inval": // Inval: the feed-side Remove (DocChanged) after a metadata-only update
 		e.cache.Remove(ctx, docID, k.ver, 0)
 	default:
 		e.t.Fatalf("VERIF-FATAL unknown op %q", s.Op)
 	}
 	return vObj{"a": "End", "t": s.T, "op": s.Op, "k": s.K, "c": ret, "err": isErr, "gd": atomic.LoadInt32(&call.gd), "gr": atomic.LoadInt32(&call.gr)}
+}
+
+// storeUpdate: the scripted bucket now holds the given variant for the document (same revision, other channels)
+func (e *vC16Env) storeUpdate(tw *vTraceWriter, doc, variant string) {
+	e.store.mu.Lock()
+	e.store.docs[e.docIDs[doc]] = variant
+	e.store.mu.Unlock()
+	tw.Emit(vObj{"a": "StoreUpdate", "d": doc, "c": e.content[variant]})
 }
 
 // byte limit of the behaviour (given in the model's units 3/5) translated to the real sizes r1 < r2 so that the
@@ -536,6 +547,10 @@ func vC16Seq(t *testing.T, tw *vTraceWriter, behEnv string, forceImpl string) {
 			steps = append(steps, vC16Step{T: "t1", Op: "Remove", K: kn, C: "nil", F: "ok"})
 		}
 		for _, s := range steps {
+			if s.Op == "StoreUpdate" {
+				e.storeUpdate(tw, s.K, s.C)
+				continue
+			}
 			tw.Emit(e.beginLine(s))
 			end := e.exec(s, nil)
 			end["S"] = e.snap()
@@ -659,6 +674,44 @@ func vC16Sched(t *testing.T, tw *vTraceWriter, want string) {
 			tw.Emit(end1)
 			tw.Emit(end2)
 			tw.Emit(vObj{"a": "Quiesce", "S": e.snap()})
+		}
+	case "stale-get", "stale-getactive":
+		// t1: Get(k) / GetActive(k) has READ the document (old channels) and is stalled inside the backing store.
+		// The bucket changes the channels of that revision (StoreUpdate) and the feed-side invalidation Remove(k) runs.
+		// t1 is released and finishes.  Then t2 reads k again (Get, Peek): it must not be served the pre-update channels.
+		op := map[string]string{"stale-get": "Get", "stale-getactive": "GetActive"}[want]
+		keys := []string{"k1", "k2"}
+		if op == "GetActive" {
+			keys = []string{"k2"}
+		}
+		bi := 0
+		for _, impl := range []string{"lru", "orch"} {
+			for _, kn := range keys {
+				e := vC16NewEnv(t, impl, 2, 0, map[string]string{"A": "c1", "B": "c2"}, false)
+				tw.Emit(e.resetLine(bi, "sched", false))
+				bi++
+				s1 := vC16Step{T: "t1", Op: op, K: kn, C: "nil", F: "ok"}
+				call1 := &vC16Call{gate: make(chan struct{}), entered: make(chan struct{}), after: true}
+				var wg sync.WaitGroup
+				var end1 vObj
+				tw.Emit(e.beginLine(s1))
+				wg.Add(1)
+				go func() { defer wg.Done(); end1 = e.exec(s1, call1) }()
+				<-call1.entered
+				e.storeUpdate(tw, "A", "c2")
+				inv := vC16Step{T: "t2", Op: "Inval", K: kn, C: "nil", F: "ok"}
+				tw.Emit(e.beginLine(inv))
+				tw.Emit(e.exec(inv, nil))
+				close(call1.gate)
+				wg.Wait()
+				tw.Emit(end1)
+				for _, o := range []string{"Get", "Peek"} {
+					s := vC16Step{T: "t2", Op: o, K: kn, C: "nil", F: "ok"}
+					tw.Emit(e.beginLine(s))
+					tw.Emit(e.exec(s, nil))
+				}
+				tw.Emit(vObj{"a": "Quiesce", "S": e.snap()})
+			}
 		}
 	default:
 		t.Fatalf("VERIF-FATAL unknown scenario %q", want)
